@@ -108,7 +108,7 @@ Lemma exp_backoff_fixed_total oob rnd e attempt o :
   exists d, exp_backoff_fixed oob rnd e attempt o = BRet d.
 Proof.
   unfold exp_backoff_fixed, exp_backoff_gen.
-  destruct (retry_after_secs o >? 0); [eauto|].
+  destruct (generated_backoff_retry_after_ok (retry_after_secs o)); [eauto|].
   destruct (f2i oob (exp_n e attempt) >? 0); eauto.
 Qed.
 
@@ -143,8 +143,9 @@ Lemma exp_backoff_retry_after guarded oob rnd e attempt h ch n :
   exp_backoff_gen guarded oob rnd e attempt (OStatus 429 h ch) = BRet (n * 1000000000).
 Proof.
   intros Hh Hp Hn Hr. unfold exp_backoff_gen. cbn [retry_after_secs].
-  replace (429 =? 429) with true by reflexivity.
+  replace (429 =? generated_backoff_retry_after_status) with true by reflexivity.
   destruct h as [|c h']; [congruence|]. rewrite Hp.
+  unfold generated_backoff_retry_after_ok, generated_backoff_retry_after_unit.
   destruct (n >? 0) eqn:E; [|lia]. f_equal.
   unfold wrap64. unfold two63 in *. unfold two64.
   rewrite Z.mod_small by lia. lia.
@@ -753,7 +754,7 @@ Lemma exp_class_sound guarded oob rnd e attempt o :
   end.
 Proof.
   intros Hrnd Hoob. unfold exp_class, exp_backoff_gen. cbv zeta.
-  destruct (retry_after_secs o >? 0); [eexists; split; [reflexivity|lia]|].
+  destruct (generated_backoff_retry_after_ok (retry_after_secs o)); [eexists; split; [reflexivity|lia]|].
   pose proof (tol_a_pos e attempt) as Hta. pose proof (tol_n_pos e attempt) as Htn.
   set (a := qtrunc (exp_a e attempt)) in *. set (n := qtrunc (exp_n e attempt)) in *.
   set (ta := tol_a e attempt) in *. set (tn := tol_n e attempt) in *.
@@ -1326,3 +1327,12 @@ Proof.
   cbn [skipn Z.of_nat app] in *. rewrite R, T, A.
   destruct (spec_run p bd sc t 0 (rt_fuel p)) as [[r te] l]. reflexivity.
 Qed.
+
+(* the arithmetic of ExponentialBackoff as translated from the source, in closed form *)
+Lemma exp_arith_eq e attempt :
+  exp_temp e attempt = (inject_Z (e_base e) * Qpower (e_factor e) attempt)%Q /\
+  exp_a e attempt = (exp_temp e attempt * (1 - e_jitter e))%Q /\
+  exp_n e attempt = ((2 # 1) * e_jitter e * exp_temp e attempt)%Q /\
+  generated_backoff_retry_after_status = 429 /\ generated_backoff_retry_after_unit = 1000000000 /\
+  (forall ra, generated_backoff_retry_after_ok ra = (ra >? 0)).
+Proof. repeat split; reflexivity. Qed.
